@@ -302,7 +302,7 @@ func adapterResult(got []byte, err error) string {
 	switch err {
 	case io.EOF:
 		return "OK " + hx(got)
-	case errInjected:
+	case errInjected, io.ErrUnexpectedEOF, io.ErrClosedPipe:
 		return "ERR FAULT " + hx(got)
 	case io.ErrNoProgress:
 		return "ERR NOPROGRESS " + hx(got)
@@ -330,13 +330,34 @@ type failingWriter struct {
 	n       int // bytes accepted before failing
 	written int
 	short   bool // report a short write together with the error
+	// mode 0: as `short` says, and every later write fails too
+	// mode 1: the failing write claims the full count together with the error, later writes succeed
+	// mode 2: the failing write reports the bytes that fit together with the error, later writes succeed
+	mode   int
+	failed bool
 }
 
 func (w *failingWriter) Write(p []byte) (int, error) {
+	if w.mode != 0 && w.failed {
+		w.written += len(p)
+		return len(p), nil
+	}
 	if w.written+len(p) > w.n {
 		k := w.n - w.written
 		if k < 0 {
 			k = 0
+		}
+		w.failed = true
+		switch w.mode {
+		case 1:
+			w.written += len(p)
+			return len(p), errInjected
+		case 2:
+			if k == 0 {
+				k = 1 // progress and an error in the same call
+			}
+			w.written += k
+			return k, errInjected
 		}
 		w.written += k
 		if w.short {
@@ -365,8 +386,12 @@ func runC29(r *Run) {
 				{"MarshalCTE", len(cteDoc), func(w io.Writer) error { return ce.MarshalCTE(val, w, cfg) }},
 			} {
 				for k := 0; k < f.size; k++ {
-					for _, short := range []bool{false, true} {
+					for wm := 0; wm < 4; wm++ {
+						short := wm == 1
 						w := &failingWriter{n: k, short: short}
+						if wm >= 2 {
+							w.mode = wm - 1 // an error reported once, together with progress
+						}
 						var err error
 						var pan interface{}
 						func() {
@@ -378,7 +403,7 @@ func runC29(r *Run) {
 						if pan != nil {
 							r.out.Finding("C29", "write-fault-panic:"+f.name, fmt.Sprintf("%s lets a panic escape when the writer fails after %d of %d bytes: %v", f.name, k, f.size, pan), fmt.Sprintf("%#v", val))
 						} else if err == nil {
-							r.out.Finding("C29", "write-fault-unreported:"+f.name, fmt.Sprintf("%s reports success although the writer failed after %d of %d bytes (short=%v)", f.name, k, f.size, short), fmt.Sprintf("%#v", val))
+							r.out.Finding("C29", "write-fault-unreported:"+f.name, fmt.Sprintf("%s reports success although the writer failed after %d of %d bytes (writer mode %d: 0 = error and no bytes, 1 = short write and error, 2 = full count and error once, 3 = some bytes and error once)", f.name, k, f.size, wm), fmt.Sprintf("%#v", val))
 						}
 					}
 				}
@@ -390,7 +415,7 @@ func runC29(r *Run) {
 		if full, err := cbeEncode(evs, cfg); err == nil {
 			for k := 0; k < len(full); k++ {
 				enc := cbe.NewEncoder(cfg)
-				enc.PrepareToEncode(&failingWriter{n: k})
+				enc.PrepareToEncode(&failingWriter{n: k, mode: k % 3})
 				_, err := playTo(evs, enc)
 				r.out.Count("write-fault:cbe.Encoder")
 				if err == nil {
@@ -404,7 +429,7 @@ func runC29(r *Run) {
 			step := 1 + len(full)/60
 			for k := 0; k < len(full); k += step {
 				enc := cte.NewEncoder(cfg)
-				enc.PrepareToEncode(&failingWriter{n: k})
+				enc.PrepareToEncode(&failingWriter{n: k, mode: k % 3})
 				_, err := playTo(evs3, enc)
 				r.out.Count("write-fault:cte.Encoder")
 				if err == nil {
@@ -427,13 +452,16 @@ func runC29(r *Run) {
 						continue
 					}
 					sizes, _ := randomSizes(rng)
+					// the failure is an error value of the caller's, or one of the standard ones a wrapped
+					// reader (gzip, pipes, io.ReadFull) returns: none of them means "end of document"
+					failErr := []error{errInjected, io.ErrUnexpectedEOF, io.ErrClosedPipe}[(k+mode)%3]
 					mk := func() io.Reader {
-						return &patternReader{data: doc, sizes: sizes, failAt: k, failErr: errInjected, failWithData: withData, transient: transient}
+						return &patternReader{data: doc, sizes: sizes, failAt: k, failErr: failErr, failWithData: withData, transient: transient}
 					}
 					if dc.format == "cbe" {
 						got, rerr := drainAdapter(cbe.VerifNewReaderAdapter(mk()), len(doc)+5)
 						r.out.Line("corr", fmt.Sprintf("%d.%d.%d", idx, k, mode), "READER.FAULT", []string{hx(doc), sizesText(sizes), fmt.Sprintf("%d", k), b01(withData)}, adapterResult(got, rerr))
-						if rerr != errInjected || !bytes.Equal(got, doc[:k]) {
+						if rerr != failErr || !bytes.Equal(got, doc[:k]) {
 							r.out.Finding("C29", "adapter-fault-lost", fmt.Sprintf("the reader adapter delivers %s and then %v for a source failing at offset %d", hx(got), rerr, k), hx(doc))
 						}
 					}
